@@ -46,6 +46,14 @@ BaseMembersT == <<{Mem("meth", "published"), Mem("vmeth", "published"), Mem("vdt
 BaseHeads == {<<"class", TRUE, FALSE>>}
 BaseKinds == {<<"public", FALSE>>, <<"public", TRUE>>, <<"protected", FALSE>>}
 
+\* ---- nesting and typedefs: a class with a nested class / enum, a namespace-scope typedef naming a class
+NestHeads == {<<"class", TRUE, FALSE>>}
+NestKeys == {"class", "struct"}
+NestMembers == <<{Mem("meth", "published"), Mem("enum", "published"), Mem("enum", "same")},
+                 {Mem("meth", "published"), Mem("enum", "published")}>>
+M22 == <<2, 2>>
+NestTops == {Top("tdefc", FALSE, FALSE)}
+
 \* ---- namespace-scope entities with comments
 DescTops == {[Top(k, TRUE, FALSE) EXCEPT !.cm = cm] : k \in {"func", "var", "macro"}, cm \in Styles}
 
@@ -65,6 +73,8 @@ WF ==
                         Cls(Cls(c).bases[b1].c).bases[x].c # Cls(Cls(c).bases[b2].c).bases[y].c
   \* the first member of a class carries an explicit label in these families
   /\ \A c \in 1..NC : NM(c) >= 1 => Mbr(c, 1).lab # "same"
+  \* a typedef names a namespace-scope class or an accessible nested one
+  /\ \A t \in 1..NT : (NeedsRef(lib.tops[t].k) /\ Cls(lib.tops[t].rc).outer # 0) => Rank(ClassVis(lib.tops[t].rc)) <= 1
 
 \* the member function a fixed-shape kind stands for
 ShapeSig(c, k) ==
@@ -95,7 +105,8 @@ Describe ==
    classes |-> {[c |-> x.c, derivations |-> Derivations(x.c), cm |-> Cls(x.c).cm, poly |-> Poly(x.c),
                  nested |-> Cls(x.c).outer # 0, outer |-> Cls(x.c).outer] : x \in {y \in RDefined : IsClassT(y)}},
    enums |-> {[c |-> x.c, i |-> x.i, cm |-> Mbr(x.c, x.i).cm] : x \in {y \in RDefined : ~IsClassT(y)}},
-   tops |-> {[t |-> e.i, cm |-> lib.tops[e.i].cm] : e \in {x \in RCallable : x.t = "t"}}]
+   tops |-> {[t |-> e.i, cm |-> lib.tops[e.i].cm] : e \in {x \in RCallable : x.t = "t"}},
+   typedefs |-> {[t |-> t, target |-> lib.tops[t].rc] : t \in {x \in 1..NT : TypedefGate(x)}}]
 
 \* model invariants: the description is a function of the entity
 DescFunctional ==
